@@ -40,6 +40,9 @@ def build_parser(start, prods):
     return lr1.Grammar(start, productions).parser()
 
 
+PARSE_LIMIT_S = 10
+
+
 def check_grammar(start, prods, max_len, stats, klass, hashseed):
     """Runs every string up to max_len through parser and oracle."""
     gkey = [start, prods]
@@ -72,7 +75,12 @@ def check_grammar(start, prods, max_len, stats, klass, hashseed):
         want_acc, want_idx = earley.recognize(pg, list(s))
         case = dict(case0, string=list(s))
         try:
-            res = parser.parse(toks)
+            with emb.time_limit(PARSE_LIMIT_S):
+                res = parser.parse(toks)
+        except (emb.Timeout, MemoryError, RecursionError) as ex:
+            # a parse of <= 6 tokens costs microseconds; the limit is ~10^5 times that
+            stats.fail({"kind": "parse-does-not-terminate", "how": type(ex).__name__}, case, "parser.parse(%r) did not finish within %d s / the memory limit (%s)" % (list(s), PARSE_LIMIT_S, type(ex).__name__))
+            break  # every further string would cost the full limit
         except Exception:
             stats.fail(dict(kind="parse-exception", **emb.exc_signature()), case, traceback.format_exc())
             continue
@@ -226,6 +234,12 @@ def worker_main(argv):
     """argv: out.json seed n max_len hashseed [replay.json]"""
     out, seed, n, max_len, hashseed = argv[0], int(argv[1]), int(argv[2]), int(argv[3]), int(argv[4])
     stats = vlib.Stats()
+    try:  # a parser that loops allocates without bound: fail with MemoryError, not with the OOM killer
+        import resource
+
+        resource.setrlimit(resource.RLIMIT_AS, (3 * 2**30, 3 * 2**30))
+    except Exception:
+        pass
     if len(argv) > 5:
         with open(argv[5]) as f:
             cases = json.load(f)
